@@ -293,6 +293,35 @@ def eval_op(line, extra=None):
         except Exception as e:  # noqa
             return errstr(e)
         return msgstr(m)
+    if op == "conc":
+        # the jobs are constructed by as many real threads, released together at a minimal switch
+        # interval (the schedule token is the model's; CPython picks its own); one result per thread
+        import threading
+        jobs = []
+        for j in tok[2].split(","):
+            l, h = j.split(":")
+            jobs.append((int(l), None if h == "NONE" else unhx("" if h == "-" else h)))
+        res = [None] * len(jobs)
+        bar = threading.Barrier(len(jobs))
+
+        def work(k):
+            lab_, pay = jobs[k]
+            try:
+                bar.wait(30)
+                res[k] = msgstr(RTCMMessage(payload=pay, labelmsm=lab_))
+            except Exception as e:  # noqa
+                res[k] = errstr(e)
+        old = sys.getswitchinterval()
+        sys.setswitchinterval(1e-6)
+        try:
+            ts = [threading.Thread(target=work, args=(k,)) for k in range(len(jobs))]
+            for t in ts:
+                t.start()
+            for t in ts:
+                t.join(120)
+        finally:
+            sys.setswitchinterval(old)
+        return " || ".join("unfinished" if r is None else r for r in res)
     if op == "lay":
         # the model lays raw values out and packs them; the implementation parses the same bytes
         lab = extra.get("label", int(tok[1]))
@@ -504,6 +533,10 @@ def _fhex(mo):
 def canon_model(line, tables=None):
     """bring a model output line into the implementation's canonical form:
     float products, public attributes only, attributes sorted by name, descriptions hashed"""
+    if " || " in line and (line.startswith("ok id=") or line.startswith("lib:") or line.startswith("foreign:")) \
+            and "RTCMMessage(" not in line:
+        # one result per thread (op `conc`)
+        return " || ".join(canon_model(p, tables) for p in line.split(" || "))
     line = _F.sub(_fhex, line)
     if line.startswith("F:") or " F:" in line:
         # reader events: F:<raw>:<identity>:<attributes> -> attributes replaced by their digest
